@@ -31,6 +31,7 @@ import LinVerif.Lemmas.C19Recover
 import LinVerif.Lemmas.C19Term
 import LinVerif.Lemmas.C19Pool
 import LinVerif.Lemmas.C19Broker
+import LinVerif.Lemmas.C19Lock
 import LinVerif.Generated.C19
 
 namespace LinVerif.Props.C19
@@ -296,6 +297,33 @@ theorem broker_meta_send_failure (n : Nat) (rs : List BrokerMeta.Resp) :
 
 /-! ## non-vacuity -/
 
+/-! ### the lock discipline of completeStage when a stage's Complete() hook panics
+(Model/CompleteLock.lean; lindb's shard-scan / grouping stages read tag values from the metadata
+database inside that hook) -/
+
+/-- the callback never fires twice, whatever the hooks do and however the hook is called -/
+theorem complete_hook_at_most_once (g : Bool) (n m : Nat) (h : 0 < n + m) (s : CompleteLock.St)
+    (hr : CompleteLock.Reachable g (CompleteLock.init n m) s) : s.fired ≤ 1 := by
+  have hi := CompleteLock.inv_reachable h hr
+  by_cases hp : s.pending = 0
+  · have := hi.fire1 hp; omega
+  · have := (hi.fire0 hp).2; omega
+
+/-- FULL STRENGTH for the repaired shape (the hook runs inside a recover): for every number of stages
+whose hook returns (`n`) or panics (`m`), in every interleaving of Lock / hook / Unlock / Dec / CAS,
+a state in which no goroutine can move is the regular end: the mutex is free, every stage has
+decremented `pending`, the callback fired exactly once, and it carries an error if some hook panicked -/
+theorem complete_hook_guarded_completes (n m : Nat) (h : 0 < n + m) (s : CompleteLock.St)
+    (hr : CompleteLock.Reachable true (CompleteLock.init n m) s) (hs : CompleteLock.Stuck true s) :
+    s.holder = .free ∧ s.pending = 0 ∧ s.fired = 1 ∧ s.completed = true ∧ (0 < m → s.firstErr = true) :=
+  CompleteLock.stuck_guarded (CompleteLock.inv_reachable h hr) hs
+
+/-- every run of the lock model is finite (both shapes): each step decreases `measure` -/
+theorem complete_hook_runs_terminate (g : Bool) (r : CompleteLock.Rule) (s s' : CompleteLock.St)
+    (h : CompleteLock.step g r s = some s') : CompleteLock.measure s' < CompleteLock.measure s :=
+  CompleteLock.step_measure r h
+
+
 /-- fan-out 2 under a synchronous root, one pooled child failing: a complete run -/
 def treeA : Stage := .mk .inline false .ok [.mk .pooled false .error [], .mk .pooled false .ok []]
 /-- all-synchronous: the root succeeds, its only child fails -/
@@ -447,6 +475,32 @@ theorem recovered_pooled_panic :
     outcome ⟨.own, false, false⟩ treeR (List.replicate 12 0 ++ [2, 2, 2] ++ [1, 1, 1, 1]) = some ([⟨true, true, true, 3, 3⟩], 0, true) := by
   decide
 
+/-- the source as it is (the hook is called directly between Lock and the non-deferred Unlock):
+whenever at least one stage's Complete() hook panics there is a run that ends in a DEADLOCK — the
+mutex is leaked, the panicking task's own retry (`execTask` → `errHandle` → `completeStage` → `Lock()`)
+and every other stage's `completeStage` block forever, `pending` stays > 0 and the completion callback
+never fires: no response. For every `n`, every `m ≥ 1`. -/
+theorem complete_hook_panic_deadlocks (n m : Nat) (hm : 0 < m) :
+    ∃ s, CompleteLock.Reachable false (CompleteLock.init n m) s ∧ CompleteLock.Stuck false s ∧
+      s.holder = .leaked ∧ s.fired = 0 ∧ 0 < s.pending := by
+  refine ⟨⟨n, m - 1, 1, .leaked, 0, 0, (n + m : Nat), false, 0, false⟩, ?_, ?_, rfl, rfl, ?_⟩
+  · refine CompleteLock.Reachable.step .hook
+      (CompleteLock.Reachable.step (s' := ⟨n, m - 1, 0, .hook true, 0, 0, (n + m : Nat), false, 0, false⟩)
+        .lockPanic CompleteLock.Reachable.refl ?_) ?_
+    · simp [CompleteLock.step, CompleteLock.init, hm]
+    · simp [CompleteLock.step]
+  · intro r; cases r <;> simp [CompleteLock.step]
+  · simp only; omega
+
+/-- the harness' witness: one pooled stage whose hook panics -/
+theorem complete_hook_witness :
+    (CompleteLock.runOrder false [true]).fired = 0 ∧ (CompleteLock.runOrder false [true]).pending = 1 ∧
+    (CompleteLock.runOrder false [true]).holder = .leaked ∧
+    (CompleteLock.runOrder false [false, true, false]).pending = 2 ∧
+    (CompleteLock.runOrder true [false, true, false]).fired = 1 ∧
+    (CompleteLock.runOrder true [false, true, false]).firstErr = true ∧
+    (CompleteLock.runOrder true [false, true, false]).holder = .free := by decide
+
 end Neg
 
 /-! ## tie to the source (regenerated facts) -/
@@ -455,7 +509,11 @@ end Neg
 def currentCfg : Cfg :=
   cfgOf Generated.C19.completePassesFirstError Generated.C19.stageRecoversPanic Generated.C19.submitRejectNotifies
 
-theorem tie_completeStage : Generated.C19.completeStageSteps = completeStageOrder currentCfg.arg := by decide
+theorem tie_completeStage :
+    Generated.C19.completeStageSteps = completeStageOrder currentCfg.arg Generated.C19.completeHookGuarded := by decide
+theorem tie_safeComplete :
+    Generated.C19.safeCompleteSteps = CompleteLock.safeCompleteOrder Generated.C19.completeHookGuarded := by decide
+theorem tie_responseSendSites : Generated.C19.responseSendSites = responseSendSitesExpected := by decide
 theorem tie_firstError : Generated.C19.firstErrorSteps = firstErrorOrder currentCfg.arg := by decide
 theorem tie_complete : Generated.C19.completeSteps = completeOrder := by decide
 theorem tie_isCompleted : Generated.C19.isCompletedSteps = isCompletedOrder := by decide
@@ -542,5 +600,17 @@ theorem completion_under_rejection_current :
     | false =>
       have : currentCfg = ⟨currentCfg.arg, false, true⟩ := by simp [currentCfg, cfgOf, h, h2]
       rw [this]; exact Or.inr (Or.inr ⟨rfl, rfl⟩)
+
+/-- … and about completion when a stage's Complete() hook panics (lock discipline of completeStage) -/
+theorem complete_hook_current :
+    (Generated.C19.completeHookGuarded = true ∧
+      ∀ n m, 0 < n + m → ∀ s, CompleteLock.Reachable true (CompleteLock.init n m) s → CompleteLock.Stuck true s →
+        s.holder = .free ∧ s.pending = 0 ∧ s.fired = 1 ∧ s.completed = true ∧ (0 < m → s.firstErr = true)) ∨
+    (Generated.C19.completeHookGuarded = false ∧
+      ∀ n m, 0 < m → ∃ s, CompleteLock.Reachable false (CompleteLock.init n m) s ∧ CompleteLock.Stuck false s ∧
+        s.holder = .leaked ∧ s.fired = 0 ∧ 0 < s.pending) := by
+  cases h : Generated.C19.completeHookGuarded with
+  | true => exact Or.inl ⟨rfl, fun n m hnm s hr hs => complete_hook_guarded_completes n m hnm s hr hs⟩
+  | false => exact Or.inr ⟨rfl, fun n m hm => Neg.complete_hook_panic_deadlocks n m hm⟩
 
 end LinVerif.Props.C19
